@@ -53,6 +53,14 @@ def uf(name, nargs, out=R, argsorts=None):
 PI = z3.Real("M_PI")
 
 
+def cfloat(x):
+    """Exact rational value of the double nearest to x (x: float or literal text)."""
+    from fractions import Fraction
+    fr = Fraction(float(x))
+    return z3.RealVal(fr.numerator) / z3.RealVal(fr.denominator) if fr.denominator != 1 \
+        else z3.RealVal(fr.numerator)
+
+
 def to_real(e):
     if isinstance(e, (int, float)):
         return z3.RealVal(e)
@@ -123,6 +131,9 @@ class CArr(object):
         old = self.get
         v = to_real(v) if self.kind == "real" else to_int(v)
         self.written = True
+        slog = getattr(self, "store_log", None)
+        if slog is not None:
+            slog.append(i)
         if guard is None or z3.is_true(guard):
             self.get = lambda j, old=old, i=i, v=v: z3.If(j == i, v, old(j))
         else:
@@ -557,6 +568,9 @@ class CExec(object):
         init, cond, inc, body = inner[0], inner[2], inner[3], inner[4]
         if h is not None:
             return h(self, s, st, key)
+        # a loop variable declared in the for-init is local to the loop: its
+        # updates need no guard (under a false guard the whole loop is dead code)
+        local_var = init.get("kind") == "DeclStmt"
         if init.get("kind"):
             self.exec_stmt(init, st) if init.get("kind") in ("DeclStmt",) else self.rvalue(init, st)
         st.broke.append(z3.BoolVal(False))
@@ -576,7 +590,15 @@ class CExec(object):
                 self.exec_stmt(body, st)
                 st.continued.pop()
                 if inc.get("kind"):
-                    self.rvalue(inc, st)
+                    if local_var:
+                        saved = (st.guard, st.returned, list(st.broke), list(st.continued))
+                        st.guard, st.returned = z3.BoolVal(True), z3.BoolVal(False)
+                        st.broke = [z3.BoolVal(False)] * len(st.broke)
+                        st.continued = [z3.BoolVal(False)] * len(st.continued)
+                        self.rvalue(inc, st)
+                        st.guard, st.returned, st.broke, st.continued = saved
+                    else:
+                        self.rvalue(inc, st)
         finally:
             st.broke.pop()
             st.guard = g0
@@ -736,18 +758,8 @@ class CExec(object):
         return z3.IntVal(int(e["value"]))
 
     def r_FloatingLiteral(self, e, st):
-        from fractions import Fraction
-        fr = Fraction(float(e["value"])) if "value" in e else Fraction(0)
-        # keep decimal literals exact when short
-        txt = e.get("value", "0")
-        try:
-            fr2 = Fraction(txt)
-            if float(fr2) == float(e["value"]):
-                fr = fr2
-        except Exception:
-            pass
-        return z3.RealVal(fr.numerator) / z3.RealVal(fr.denominator) if fr.denominator != 1 \
-            else z3.RealVal(fr.numerator)
+        # a C floating literal denotes the nearest double: use its exact rational value
+        return cfloat(e.get("value", "0"))
 
     def r_CharacterLiteral(self, e, st):
         return z3.IntVal(int(e["value"]))
@@ -1322,8 +1334,48 @@ class MapLoop(object):
         if n is None or not z3.is_int_value(z3.simplify(lo)) or z3.simplify(lo).as_long() != 0:
             raise OutsideSubset("map loop %s: not of the form for (x=0; x<n; x++)" % self.name)
         mods = resolve_mods(st, body)
-        arrays = [a for a in mods if isinstance(a, CArr)]
-        scalars = [m for m in mods if not isinstance(m, CArr) and m is not var]
+        all_arrays = [a for a in mods if isinstance(a, CArr)]
+        for m_ in mods:
+            if isinstance(m_, CStruct):
+                for f_ in m_.fields.values():
+                    if isinstance(f_, CArr) and f_ not in all_arrays:
+                        all_arrays.append(f_)
+        arrays = [a for a in all_arrays if a in self.arrays]
+        scratch = [a for a in all_arrays if a not in self.arrays]
+        scalars = [m for m in mods if not isinstance(m, (CArr,)) and m is not var
+                   and not (isinstance(m, CStruct) and any(isinstance(f_, CArr) for f_ in m.fields.values()))]
+        snap = Snapshot(st)
+        # scratch arrays (written at constant slots, e.g. the magnetic SLD slots of the
+        # parameter vector): discover the slots in a dry run, then treat them as
+        # iteration-local scalars (havoc before the iteration and after the loop)
+        scratch_slots = {}
+        if scratch:
+            for a in scratch:
+                a.store_log = []
+            g_dry = st.guard
+            st.guard = z3.simplify(z3.And(g_dry, K >= 0, K < n))
+            st.broke.append(z3.BoolVal(False))
+            st.continued.append(z3.BoolVal(False))
+            ex.exec_stmt(body, st)
+            for a in scratch:
+                idxs = []
+                for i_ in a.store_log:
+                    si = z3.simplify(i_)
+                    if not z3.is_int_value(si):
+                        raise OutsideSubset("map loop writes scratch array %s at a symbolic index" % a.name)
+                    if si.as_long() not in idxs:
+                        idxs.append(si.as_long())
+                scratch_slots[id(a)] = idxs
+                a.store_log = None
+            snap.restore(st)
+            var.value = K
+
+        def havoc_scratch(tagname):
+            for a in scratch:
+                for slot in scratch_slots.get(id(a), []):
+                    _hv[0] += 1
+                    a.store(z3.IntVal(slot), z3.Real("%s!%s!%d!%d" % (a.name, tagname, slot, _hv[0])))
+        havoc_scratch("iter")
         snap = Snapshot(st)
         before = {id(a): a.get for a in arrays}
         # scalars written by an iteration must not carry values between iterations
@@ -1368,5 +1420,6 @@ class MapLoop(object):
             a.written = True
         for o in scalars:
             havoc_obj(o, "aftermap")
+        havoc_scratch("aftermap")
         var.value = z3.Int("x!after!%d" % _hv[0])
         _hv[0] += 1
